@@ -1,4 +1,5 @@
 import BfeVerif.C25.Model
+import BfeVerif.C26.Model
 /-
   C29 — model of the client-address resolution:
     mod_trust_clientip.acceptHandler   trusted := trustTable.Search(peer IP)         (SPEC of the table:
@@ -109,6 +110,21 @@ def resolve (i : In) : Option (Bytes × Int) × Hdr :=
   let ca := clientAddr i
   (ca, defaultHeader i ca)
 
+/-- what is sent upstream: `ReverseProxy.ServeHTTP` copies the request and runs `hopByHopHeaderRemove`
+    (model of C26, incl. the names a Connection token cannot remove) AFTER mod_header set its headers -/
+def upstream (i : In) : Hdr :=
+  BfeVerif.C26.hopRemove BfeVerif.Generated.C26.hopHeaders (resolve i).2
+
+/-! ## trust-table reload histories: the table in force is the one most recently loaded SUCCESSFULLY -/
+structure Load where
+  version : Bytes                    -- "Version" of the data file (plays no role in the specification)
+  ranges : List (Bytes × Bytes)
+  good : Bool                        -- the file parses, has a Version and a Config, every begin ≤ end
+
+def tableAfter (init : List (Bytes × Bytes)) : List Load → List (Bytes × Bytes)
+  | [] => init
+  | l :: ls => tableAfter (if l.good then l.ranges else init) ls
+
 /-! ## SPEC side (judges the implementation's observable result) -/
 /-- `s` ends with the list element `t`: `s = t` or `s = … ", " t` -/
 def endsWithElem (s t : Bytes) : Bool :=
@@ -139,6 +155,6 @@ def trustedViolation (i : In) (ca : Option (Bytes × Int)) (h : Hdr) : Option St
   else match ca with
     | some (ip, port) =>
       if hvals h kXRealIp != some [ip] || hvals h kXRealPort != some [itoa port] then some "trusted-realip" else none
-    | none => if hvals h kXRealIp != hvals i.hdr kXRealIp then some "trusted-realip-touched" else none
+    | none => if (hvals h kXRealIp).getD [] != (hvals i.hdr kXRealIp).getD [] then some "trusted-realip-touched" else none
 
 end BfeVerif.C29
